@@ -294,7 +294,7 @@ NOT_YET = {}
 # properties whose anchored functions are also READ FROM THE SOURCE on every run (harness/pygen.py -> coq/Gen/Source.v)
 GEN = {
     "C03": "the @field_validator chains of all nine geometry classes",
-    "C06": "compute_affinity_in_time and the two type sets of affinity.py",
+    "C06": "compute_affinity_in_time, the area branch of compute_affinity (zero-union guard, division, clamp; the three GEOS quantities are parameters) and the two type sets of affinity.py",
     "C11": "buffer_geometry (guard, dispatch) and the three closed-form buffers",
     "C12": "intervals_overlap, have_temporal_overlap, have_frequency_overlap, is_in_clip",
     "C14": "the generator loop of segment_clip",
